@@ -19,7 +19,6 @@ import (
 	"strings"
 
 	"github.com/knz/shakespeare/pkg/cmd"
-	"github.com/knz/shakespeare/verifharness/vh"
 )
 
 type obs struct {
@@ -573,21 +572,10 @@ func main() {
 	if count == 0 {
 		count = 1500
 		if *tier == "thorough" {
-			count = 30000
+			count = 20000
 		}
 	}
-	r := vh.Rng(*seed)
-	var cases []*Case
-	for i := 0; i < count; i++ {
-		c := buildCase(i, r, *tier)
-		if *dump == i {
-			b, _ := json.MarshalIndent(c, "", " ")
-			fmt.Println(string(b))
-			return
-		}
-		cases = append(cases, c)
-	}
-	writeAll(cases, *out, *seed, *tier)
+	run(count, *seed, *tier, *out, *dump, nil)
 }
 
 func doReplay(path, out string) int {
@@ -606,7 +594,7 @@ func doReplay(path, out string) int {
 	observe(c)
 	fmt.Printf("first load: accepted=%v %s\nreload: accepted=%v %s\nfailing oracle: %q signature: %q\n%s\n",
 		c.A.Accepted, c.A.Err, c.R2.Accepted, c.R2.Err, c.Fail, c.Sig, c.Why)
-	writeAll([]*Case{c}, out, 0, "replay")
+	run(1, 0, "replay", out, -1, []*Case{c})
 	if c.Fail != "" {
 		return 1
 	}
